@@ -31,9 +31,18 @@ for p in props:
                            level_note=NOTE + c['note'], technique=c['tech']))
     else:
         na.append(dict(property_id=i, reason=REASONS.get(i, 'not claimed yet: the model/theorems for this property are not built in this revision (planned, see DESIGN.md section 3); no check is registered rather than a weaker technique')))
+# source hooks: commits of /repo whose subject starts with 'verif hook' (fixes/*-hook.diff once applied)
+import subprocess
+try:
+    HOOK_COMMITS = subprocess.run(['git', '-C', '/repo', 'log', '--format=%H', '--grep=^verif hook'],
+                                  capture_output=True, text=True, timeout=60).stdout.split()
+except Exception:   # noqa
+    HOOK_COMMITS = []
 m = dict(version=1, setup_cmd='./setup.sh',
-         hooks=dict(guard='VOTELIB_VERIF', enable='./check exports VOTELIB_VERIF=1 for every implementation call (no source hook is needed so far)',
-                    baseline_off_cmd=BASE_OFF, source_commits=[], add_only=True),
+         hooks=dict(guard='VOTELIB_VERIF', enable='./check exports VOTELIB_VERIF=1 for every implementation call; one add-only source hook: '
+                    'BiproportionalEvaluator.evaluate records (result, district_coefs, party_coefs) per iteration in self._verif_trace '
+                    'when the guard is set (fixes/C07-hook.diff; C07 falls back to solving for multipliers when it is absent)',
+                    baseline_off_cmd=BASE_OFF, source_commits=HOOK_COMMITS, add_only=True),
          engines=[dict(name='coq-model+correspondence', path='/verif/check', serves_properties=sorted(CLAIMED),
                        kind_free_text='Coq 8.16 theorems over Gallina models; models extracted to OCaml and compared with the implementation on generated inputs; translator for arithmetic components')],
          checks=checks, not_applicable=na,
